@@ -204,7 +204,13 @@ impl<'a> Renderer<'a> {
                 self.tok(id, 1, name);
             }
             Kind::VarGet(name) => self.tok(id, 0, name),
-            Kind::Bad(text, _) => self.tok(id, 0, text),
+            Kind::Bad(text, _) => {
+                // several tokens: the last one is the token the failure is reported at
+                let parts: Vec<&str> = text.split(' ').collect();
+                for (i, t) in parts.iter().enumerate() {
+                    self.tok(id, if i + 1 == parts.len() { 0 } else { 1 + i as u8 }, t);
+                }
+            }
         }
     }
 }
